@@ -16,6 +16,7 @@ Fixpoint obj_eqf (fuel : nat) (a b : obj) {struct fuel} : bool :=
   | OInt x, OInt y => Z.eqb x y | OFloat x, OFloat y => Z.eqb x y | OBytes x, OBytes y => zl_eqb x y
   | OText x, OText y => zl_eqb x y | OBool x, OBool y => Bool.eqb x y | ONone, ONone => true
   | OPending x, OPending y => Nat.eqb x y
+  | ORemote x, ORemote y => zl_eqb x y
   | OList x, OList y | OTuple x, OTuple y => list_eqbw eq x y
   | OSet x, OSet y | OFset x, OFset y =>          (* as sets *)
       forallb (fun e => existsb (eq e) y) x && forallb (fun e => existsb (fun e' => eq e' e) x) y
@@ -276,6 +277,21 @@ def oracle(ctx, S, E):
                    [["b", list(wd)]], [["b", ["l", [["b", list(wd)], ["b", [120]]]]]], 1)
     do("vocab-text", [("a", ["text", 4, 0], False), ("b", ["dict", ["bytes", 8, 0], ["bytes", 8, 0], None], False)],
        [["t", list(b"list")], ["d", [[["b", list(b"call")], ["b", list(b"function")]]]]], [], 1)
+    # ChoiceOf: every ordered pair of alternatives, a value of each alternative that the guard region covers (a single
+    # token or None): tasting must reach the alternative that accepts it whatever stands before or after it (strict
+    # tasters of str/bool/None included), bare and as a list item
+    alts = [(["py", "str"], None), (["py", "bool"], None), (["none"], ["N"]), (["py", "int"], ["i", 2 ** 40]), (["int", -1], ["i", -5]),
+            (["py", "bytes"], ["b", [1, 2]]), (["bytes", 10, 0], ["b", list(b"call")]), (["py", "float"], ["f", S.bits_of_f(1.5)]),
+            (["number", None], ["i", 2 ** 70]), (["list", ["py", "int"], None, 0], None), (["any"], ["i", 7])]
+    for ca, va in alts:
+        for cb, vb in alts:
+            if ca is cb:
+                continue
+            for v in (va, vb):
+                if v is None:
+                    continue
+                ch = ["choice", [ca, cb]]
+                do("choice-order", [("a", ch, False), ("b", ["list", ch, None, 0], True)], [v], [["b", ["l", [v, v]]]], 1)
     # one container object occurring twice in a call, under every container constraint kind
     for i in range(ctx.n(160, 1500)):
         g = S.gen_shared_call(rng)
